@@ -510,7 +510,7 @@ class FlowDomain(Domain):
             need_absent('C04.O3', ('RB', 'RT', 'ZM:RB'),
                         'a crash can leave a reachable mapping whose refcount (or the reftable entry leading to it) '
                         'is not on disk: under-count')
-            ok = 'RC' not in ram
+            ok = 'RC' not in ram and 'RT' not in ram
             self._ob('C04.O3r', fr, bi, ok, 'W(%s) by %s; refcount changes only in RAM: %s' % (cls, issuer, not ok),
                      site='W(%s)@%s' % (cls, issuer))
             if not ok:
